@@ -7,10 +7,10 @@ CONSTANTS
   MaxAbandon = 1
   DirOf <- SameSide
   Kinds = {"call"}
-  Faults = {"exit"}
+  Faults = {}
   TagMode = "fresh"
-  ResolveMode = "bytag"
+  ResolveMode = "fifo"
   MaxPg = 0
 INVARIANTS
-  Ordered NoCrossWire TagsUnique AnsweredWasDelivered StoppedIsClean ProxyHasOriginal Mirrors
+  NoCrossWire
 CHECK_DEADLOCK TRUE
